@@ -23,11 +23,17 @@
      "clean"     leaves the connection at a message boundary (unary calls, streams run to the end / close() / cancel(),
                  a unary call interrupted by a raising on_log -- the client drains it)
      "abandon"   opens a stream and walks away from it                      (the pool sees it: last session not closed)
+     "intr"      a unary call, or the drain in close()/cancel(), is cut short by a client-side exception that the client
+                 does not answer by draining: one that looks like a wire failure (an OSError raised by the caller's own
+                 on_log callback) or is not an `Exception` at all (KeyboardInterrupt, CancelledError); no stream is open
      "nonlast"   walks away from a stream (or a stream's init), then opens and closes another / had closed one before
                  -- the connection is off-boundary but the *last* session is closed
    Intended design vs. code as shipped:
      Dev_MaxIdleZeroKeeps   max_idle = 0: the returning worker is appended after an empty eviction (one idle worker)
-     Dev_LastSessionOnly    _PooledTransport looks only at the last StreamSession: "nonlast" is not detected        *)
+     Dev_LastSessionOnly    _PooledTransport looks only at the last StreamSession: "nonlast" is not detected
+     IntrMode               what becomes of an "intr" connection: "discard" (the pool is told the call never completed),
+                            "drain" (the client reads the response to its end after all) -- both intended -- or
+                            "keep" (shipped: neither; the worker goes back to the idle set off-boundary)                 *)
 EXTENDS Naturals, Sequences, FiniteSets, TLC
 
 CONSTANTS NB,              \* borrower threads 1..NB
@@ -40,7 +46,7 @@ CONSTANTS NB,              \* borrower threads 1..NB
           Kinds,           \* borrower scripts explored
           ReaperInit,      \* {"wait"} = the reaper thread runs, {"off"} = it does not
           CloserInit,      \* {"start"} = a thread calls close(), {"off"} = nobody does
-          Dev_MaxIdleZeroKeeps, Dev_LastSessionOnly
+          Dev_MaxIdleZeroKeeps, Dev_LastSessionOnly, IntrMode
 
 Borrowers == 1..NB
 MaxW == NB * MaxRounds     \* every borrow spawns at most one worker
@@ -73,8 +79,9 @@ Key(b) == ((b - 1) % nKeys) + 1
 Mine(b) == {i \in 1..Len(idle) : wkey[idle[i]] = Key(b)}          \* positions of idle workers of b's command
 MaxOf(S) == CHOOSE x \in S : \A y \in S : y <= x
 Without(s, i) == SubSeq(s, 1, i - 1) \o SubSeq(s, i + 1, Len(s))
-DirtyKind(k) == k \in {"abandon", "nonlast"}
-Detected(k, lastOnly) == k = "abandon" \/ (k = "nonlast" /\ ~lastOnly)
+IntrModes == {"discard", "drain", "keep"}
+DirtyKind(k, im) == k \in {"abandon", "nonlast"} \/ (k = "intr" /\ im # "drain")
+Detected(k, lastOnly, im) == k = "abandon" \/ (k = "nonlast" /\ ~lastOnly) \/ (k = "intr" /\ im = "discard")
 \* where a borrower thread goes after finishing a round: the next connect() reads _closed in the same step
 AfterRound(b) == IF round[b] + 1 >= nRounds THEN "done" ELSE IF closed THEN "raised" ELSE "borrow"
 
@@ -110,14 +117,14 @@ BSpawned(b) == /\ bpc[b] = "spawned" /\ bpc' = [bpc EXCEPT ![b] = "use"]
                               rnow, cpc, clock, deaths, badHandout, reused>>
 \* the borrower's script; then context exit -> _PooledTransport.close(): poll() and stream_abandoned, outside the lock.
 \* On a connection that was handed out off-boundary (or on a dead worker) the borrower's first call fails and it leaves.
-BUseD(b, k, lastOnly) ==
+BUseD(b, k, lastOnly, im) ==
               /\ bpc[b] = "use"
               /\ LET w == held[b]
                      usable == alive[w] /\ ~dirty[w] IN
-                 /\ dirty' = [dirty EXCEPT ![w] = IF usable THEN DirtyKind(k) ELSE dirty[w]]
-                 /\ det' = [det EXCEPT ![b] = usable /\ Detected(k, lastOnly)]
+                 /\ dirty' = [dirty EXCEPT ![w] = IF usable THEN DirtyKind(k, im) ELSE dirty[w]]
+                 /\ det' = [det EXCEPT ![b] = usable /\ Detected(k, lastOnly, im)]
                  /\ bpc' = [bpc EXCEPT ![b] = IF ~alive[w] THEN "retdead"
-                                               ELSE IF usable /\ Detected(k, lastOnly) THEN "retaband" ELSE "ret"]
+                                               ELSE IF usable /\ Detected(k, lastOnly, im) THEN "retaband" ELSE "ret"]
               /\ UNCHANGED <<maxIdle, nRounds, nKeys, round, held, wst, alive, retAt, nW, wkey, idle, active, closed, stop, rpc, rnow, cpc, clock,
                              deaths, badHandout, reused>>
 \* _return_worker, dead / abandoned branch: counters under the lock, transport.close() after it
@@ -143,7 +150,7 @@ BRetD(b, keepZero) ==
            /\ round' = [round EXCEPT ![b] = round[b] + 1] /\ bpc' = [bpc EXCEPT ![b] = AfterRound(b)]
            /\ UNCHANGED <<maxIdle, nRounds, nKeys, det, alive, dirty, nW, wkey, closed, stop, rpc, rnow, cpc, clock, deaths, badHandout, reused>>
 
-BUse(b, k) == BUseD(b, k, Dev_LastSessionOnly)
+BUse(b, k) == BUseD(b, k, Dev_LastSessionOnly, IntrMode)
 BRet(b) == BRetD(b, Dev_MaxIdleZeroKeeps)
 
 \* ---------------------------------------------------------------- reaper
